@@ -163,14 +163,14 @@ def analyse(repo):
         if assigns(ad, 'sql'): raise Unknown('adapt_sql: sql is rebound')
     f['adaptStoreKey'] = fields(stc, 'adapt_sql store')
     # Entity._load_: lookup with attrs, stored after attrs was rebound
-    ld = find_func(core, 'Entity._load_')
+    ld = find_func(core, 'Entity.load')
     g = cache_get(ld, 'sql_cache')
     sets = cache_sets(ld, 'sql_cache')
-    if src(g.args[0]) != 'attrs' or len(sets) != 1 or src(sets[0][1].slice) != 'attrs': raise Unknown('Entity._load_: unexpected key expressions')
+    if src(g.args[0]) != 'attrs' or len(sets) != 1 or src(sets[0][1].slice) != 'attrs': raise Unknown('Entity.load: unexpected key expressions')
     reb = [x for x in assigns(ld, 'attrs') if g.lineno < x.lineno < sets[0][0].lineno]
     f['loadStoreRebinds'] = [src(x.value) for x in reb]
     ok_rebinds = ([], ['(entity._discriminator_attr_,) + attrs', 'entity._pk_attrs_ + attrs'])
-    if f['loadStoreRebinds'] not in ok_rebinds: raise Unknown('Entity._load_: attrs rebound as %r' % f['loadStoreRebinds'])
+    if f['loadStoreRebinds'] not in ok_rebinds: raise Unknown('Entity.load: attrs rebound as %r' % f['loadStoreRebinds'])
     # Database.insert key shape
     ins = find_func(core, 'Database.insert')
     a = assigns(ins, 'query_key')
